@@ -1118,6 +1118,12 @@ def limit_cases(tier: str) -> list[dict]:
     for M in (100000, 1000000):
         for ce in ("gzip", "deflate"):
             out.append({"limit": "bomb", "M": M, "ce": ce, "factor": 40 if tier == "quick" else 200})
+    # not a limit at all: a compressed part larger than one decompression step (256 KiB) read with no size limit comes
+    # back whole through every decoding API
+    for ce in ("gzip", "deflate"):
+        for size in (262144, 262145, 600000):
+            for api in ("decode", "read_decode", "decode_iter"):
+                out.append({"limit": "bigcoded", "ce": ce, "size": size, "api": api})
     return out
 
 
@@ -1217,6 +1223,39 @@ def check_limit(rec: Rec, case: dict) -> None:
                 want_exc = ValueError
             start = len(pre)
             bound = start + M + 4 * CHUNK + slack
+        elif kind == "bigcoded":
+            plain = (b"0123456789abcdef" * (case["size"] // 16 + 1))[: case["size"]]
+            if case["ce"] == "gzip":
+                co = zlib.compressobj(6, zlib.DEFLATED, 16 + zlib.MAX_WBITS)
+            else:
+                co = zlib.compressobj(6, zlib.DEFLATED, -zlib.MAX_WBITS)
+            comp = co.compress(plain) + co.flush()
+            data = b"--BOUND\r\nContent-Encoding: " + case["ce"].encode() + b"\r\n\r\n" + comp + b"\r\n--BOUND--\r\n"
+            stream, _ = make_stream(loop)
+            reader = MultipartReader({hdrs.CONTENT_TYPE: ctype}, stream)
+
+            async def rd3():
+                part = await reader.next()
+                if case["api"] == "read_decode":
+                    return bytes(await part.read(decode=True))
+                raw = bytes(await part.read())
+                if case["api"] == "decode":
+                    return bytes(part.decode(raw))
+                out = bytearray()
+                async for piece in part.decode_iter(raw):
+                    out += piece
+                return bytes(out)
+
+            done, res, fed = drive_feed(loop, stream, segments(data, [8192]), rd3())
+            if not done:
+                raise Violation("limit/hang", f"{case}: reader blocked forever")
+            if isinstance(res, BaseException):
+                raise Violation(hyp.exc_key(res, "bigcoded-raised"), f"{case}: {res!r}")
+            if res != plain:
+                raise Violation("content-mismatch/bigcoded", f"{case}: {len(plain)} bytes sent compressed, {len(res)} bytes came back"
+                                + ("" if plain.startswith(res) else " (not even a prefix)"))
+            rec.case(case, True, ["bigcoded"])
+            return
         else:  # bomb
             M = case["M"]
             plain = b"\0" * (M * case["factor"])
